@@ -19,6 +19,7 @@ func init() {
 		Assumptions: []string{
 			"a replacement comparator orders the existing keys identically (each name keeps one comparator for the whole case)",
 			"collection names are valid UTF-8 (invalid UTF-8 names are a separately recorded input class, see known findings)",
+			"the concurrent cases follow the README's mutator-per-collection mode: each goroutine creates, replaces, removes and mutates only its own collections",
 		},
 		NumCases: func(tier string) int { return pick(tier, 800, 30000) + pick(tier, 600, 20000) },
 		Run:      runC12,
